@@ -50,7 +50,7 @@ pub fn features(nmax: usize) -> BoxedStrategy<(String, Rows)> {
 }
 
 pub fn class_labels(n: usize) -> BoxedStrategy<Vec<f64>> {
-    (Just(vec![-7.0, -1.5, 0.0, 3.0, 42.0]).prop_shuffle(), 2usize..=5, vec(any::<u16>(), n))
+    (label_values([-7.0, -1.5, 0.0, 3.0, 42.0]), 2usize..=5, vec(any::<u16>(), n))
         .prop_map(|(vals, k, s)| {
             let mut y: Vec<f64> = s.iter().map(|x| vals[idx(*x, k)]).collect();
             // at least two classes
@@ -354,7 +354,7 @@ pub fn property() -> Property {
     Property {
         id: "C05",
         quick_mult: 24,
-        rule: "training sets of 2..100 (quick) / 150 (thorough) rows and 1..6 features: per-feature permutations of distinct dyadic values (the 'distinct' class), small integers 0..3 (heavy repeats), a constant feature, continuous; 2..5 classes with label values from {-7,-1.5,0,3,42} or real / small-integer targets; all three criteria; max_depth None or 1..8, min_samples_leaf 1..5, min_samples_split 0..8; the fitted node array is read from the serde serialisation and every training row is routed by the harness. non-trivial = the fitted tree has >= 3 internal nodes; distinct = distinct serialised case",
+        rule: "training sets of 2..100 (quick) / 150 (thorough) rows and 1..6 features: per-feature permutations of distinct dyadic values (the 'distinct' class), small integers 0..3 (heavy repeats), a constant feature, continuous; 2..5 classes with label values from {-7,-1.5,0,3,42} (as they are, rescaled by 2^[-70,40], or five consecutive floating-point numbers) or real / small-integer targets; all three criteria; max_depth None or 1..8, min_samples_leaf 1..5, min_samples_split 0..8; the fitted node array is read from the serde serialisation and every training row is routed by the harness. non-trivial = the fitted tree has >= 3 internal nodes; distinct = distinct serialised case",
         assumptions: vec![
             "greedy optimality and completeness are asserted for every regression tree, and for classification trees only when min_samples_leaf = 1 and feature values are pairwise distinct (as the statement says)".into(),
             "exact reproduction of the training labels is required when max_depth = None, min_samples_leaf = 1 and min_samples_split <= 1".into(),
